@@ -14,28 +14,28 @@ import (
 
 // Eng is the per-package verification engine.
 type Eng struct {
-	dir     string
-	pkgPat  string
-	prog    *ssa.Program
-	pkg     *ssa.Package
-	fset    *token.FileSet
-	reg     *TypeReg
-	cs      *ContractSet
-	strLits []string
-	strIdx  map[string]int
-	funcs   map[string]*ssa.Function // by relative name
-	fnIds   map[string]int           // function value ids
-	errs    []string
-	guards  []*GuardRule
-	consts  map[string]string // "constant fields": comp -> constant term (e.g. Mast.debug -> false)
+	dir        string
+	pkgPat     string
+	prog       *ssa.Program
+	pkg        *ssa.Package
+	fset       *token.FileSet
+	reg        *TypeReg
+	cs         *ContractSet
+	strLits    []string
+	strIdx     map[string]int
+	funcs      map[string]*ssa.Function // by relative name
+	fnIds      map[string]int           // function value ids
+	errs       []string
+	guards     []*GuardRule
+	consts     map[string]string // "constant fields": comp -> constant term (e.g. Mast.debug -> false)
 	globalInit map[string]string
-	extra   map[string]bool
-	ptrField map[int]bool // field ids whose Go type is a pointer
-	known    map[string]bool
-	intField map[int]*types.Basic
-	macros   map[string]map[string]bool
-	notes    map[string]bool
-	mtab     map[string]*Macro
+	extra      map[string]bool
+	ptrField   map[int]bool // field ids whose Go type is a pointer
+	known      map[string]bool
+	intField   map[int]*types.Basic
+	macros     map[string]map[string]bool
+	notes      map[string]bool
+	mtab       map[string]*Macro
 }
 
 // GuardRule is an automatic obligation attached to stores into certain heap components.
